@@ -89,7 +89,8 @@ Definition findSegmentWithID (seqNo : Z) (segments : list segment) (id : Z) : fo
 
 (* ---------- outcomes of a stream downloader ---------- *)
 Inductive outcome :=
-| OEOS            (* sentinel pushed; processor calls setEnded; downloader parks on ctx.Done *)
+| OEOS            (* sentinel pushed (after the last ENDLIST segment, or when ENDLIST shows up after it);
+                     processor calls setEnded; downloader parks on ctx.Done *)
 | OErrNoSegments  (* "no segments found" *)
 | OErrNotEnough   (* "there aren't enough segments to fill the buffer" *)
 | OErrNext        (* "next segment not found or not ready yet" *)
@@ -103,6 +104,7 @@ Inductive outcome :=
 Inductive fillres :=
 | FillErr (o : outcome)
 | FillPanic
+| FillEnd                                        (* push(nil); <-ctx.Done(): nothing left to download *)
 | FillOk (v : Z) (segPos : Z) (seg : segment).   (* curSegmentID := v; then downloadSegment seg *)
 
 Definition fillSegmentQueue (firstPlaylist : playlist) (curSegmentID : option Z) (pl : playlist)
@@ -123,7 +125,10 @@ Definition fillSegmentQueue (firstPlaylist : playlist) (curSegmentID : option Z)
         end
   | Some cur =>
       match findSegmentWithID (MediaSequence pl) (Segments pl) (cur + 1) with
-      | Nil3 => FillErr OErrNext
+      | Nil3 =>
+          (* the stream has ended and its last segment has already been downloaded (fix 3b9aa17) *)
+          if Endlist pl && (cur + 1 =? MediaSequence pl + len (Segments pl)) then FillEnd
+          else FillErr OErrNext
       | Panic3 => FillPanic
       | Found3 seg segPos invPos =>
           if negb (Endlist pl) && (clientLiveMaxDistanceFromEnd <? invPos)
@@ -215,6 +220,7 @@ Section Run.
     match fillSegmentQueue firstPlaylist cur pl with
     | FillErr o => ([], o)
     | FillPanic => ([], OPanic)
+    | FillEnd => ([], OEOS)
     | FillOk v segPos seg =>
         if negb (resolves (sg_uri seg)) then ([], OErrResolve)
         else
